@@ -94,6 +94,13 @@ func Props(c *Ctx) map[string]*Prop {
 		Explanation: "Decides race freedom and goroutine lifetime structurally for every path: goroutine roots always close their channels (CC1); every access to goroutine-touched lexer fields after a spawn is preceded by a join on all paths (CC2); every field shared between the lexer-role and parser-role functions with a write is accessed only under the mutex, atomically or as a channel operation (CC3); sends can always be abandoned, the cancel channel is closed at most once, atomics are used consistently (CC4/CC5); the here-document hand-off cannot deadlock (CC6, GR4); the bail-out does not kill the process (PF4). Which of two concurrently raised errors is returned is a schedule-dependent value and is not decided.",
 		Assumptions: []string{"the Go memory model: lock, atomic, channel and go/join edges order accesses", "roles are computed on an over-approximating call graph (reference based + CHA for interface calls)"},
 		Rules: []Rule{ruleCC1("parser", "interp"), ruleCC2("parser", "interp"), ruleCC3("parser", "interp"), ruleCC4("parser", "interp"), ruleCC6(), ruleGR1("parser"), ruleGR4(), rulePF4("parser", "interp")}})
+	add(&Prop{ID: "C10",
+		Explanation: "A complete structural argument that a non-EOF error of the source's ReadRune reaches ParseCommands' caller: the source is read in exactly one function (EF1), which records every such error when the slot is empty (EF1); no store of a syntax error can replace a recorded reader error (EF2); ParseCommands returns that slot after joining the lexer (EF3, CC2); every scanner loop leaves on a failed read instead of spinning (RC2). errors.Is on wrapped errors is not modelled (the slot stores the reader's value itself).",
+		Assumptions: []string{"bufio.Reader / strings.Reader return the underlying reader's error unchanged"},
+		Rules: []Rule{ruleEF1(), ruleEF2(), ruleRC2("parser"), ruleCC2("parser")}})
+	add(&Prop{ID: "C03",
+		Explanation: "Decides only that every syntax error value is located: built with the caller's name and a recorded, non-zero position expression, and that Lex records the position of every token it delivers. Rejection of ill-formed programs itself (language recognition) is not decidable structurally.",
+		Rules: []Rule{ruleEF6()}})
 	add(&Prop{ID: "DEVT", Explanation: "dev", Rules: []Rule{ruleTB5(), ruleTB6(), ruleTB7(), ruleTB8(), ruleTB10(), ruleTB13(), ruleTB9a("parser", "parser.(*lexer).scanOp", 15)}})
 	add(&Prop{ID: "DEVG", Explanation: "dev", Rules: []Rule{ruleGR1("parser", "interp"), ruleGR2("parser", "interp"), ruleGR3(), ruleGR4(), ruleGR5(), ruleGR6()}})
 	return m
